@@ -151,15 +151,19 @@ def statements(rng, ints, floats, bools, n):
 
 
 # ----------------------------------------------------------------------------------------------
-def classify(chk: Check, verdicts, case_fn):
-    """verdicts: list (one per env) of driver verdict sexps"""
+def classify(chk: Check, verdicts, case_fn, model_verdicts=None):
+    """verdicts: list (one per env) of driver verdict sexps for (original, PYTHON-optimised);
+    model_verdicts: the same for (original, LEAN-optimised = the validated model of the unchanged optimiser)"""
     for k, v in enumerate(verdicts):
         tag = v[0] if isinstance(v, list) else str(v)
         chk.count("verdict_" + str(tag))
         if tag in ("same", "retyped", "orig-fails"):
             continue
         if tag == "alt-overflow":
-            f = chk.match_known(lambda f: f.get("signature", {}).get("predicate") == "optimised-int32-overflow")
+            # finding F8 is known only where the unchanged optimiser (its Lean model) overflows as well
+            mv = model_verdicts[k] if model_verdicts is not None and k < len(model_verdicts) else None
+            mtag = mv[0] if isinstance(mv, list) else str(mv)
+            f = chk.match_known(lambda f: f.get("signature", {}).get("predicate") == "optimised-int32-overflow") if mtag == "alt-overflow" else None
             if f:
                 chk.known(f["id"], f["what"])
             else:
@@ -186,6 +190,14 @@ def check_trees(chk: Check, drv: Driver, trees, kind: str, n_envs: int, peep_cmd
         reqs.append(f"{peep_cmd} {sx(export(t))}")
         reqs.append(f"EQUIV 50 {sx(export(t))} {sx(export(o))} {sx(es)}")
     replies = drv.batch(reqs)
+    # second pass for the cases in which the Python-optimised program overflows: does the model's own
+    # optimised program overflow too (finding F8), or is this a new rule?
+    need = [k for k in range(len(trees)) if isinstance(replies[2 * k + 1], list)
+            and any(isinstance(v, list) and v and v[0] == "alt-overflow" for v in replies[2 * k + 1])]
+    model_equiv = {}
+    if need:
+        r2 = drv.batch([f"EQUIV 50 {sx(export(trees[k]))} {sx(replies[2 * k])} {sx(envlists[k])}" for k in need])
+        model_equiv = dict(zip(need, r2))
     mism = 0
     for k, t in enumerate(trees):
         model = replies[2 * k]
@@ -198,7 +210,8 @@ def check_trees(chk: Check, drv: Driver, trees, kind: str, n_envs: int, peep_cmd
         if not isinstance(verd, list) or (verd and verd[0] == "bad-request"):
             chk.unproved_obligation("correspondence:ir-reader", f"driver could not read tree: {sx(verd)[:200]}", {"tree": sx(export(t))})
             continue
-        classify(chk, verd, lambda e, t=t, k=k: {"kind": kind, "tree": sx(export(t)), "optimised": sx(export(opts[k])), "env": sx(envlists[k][e])})
+        classify(chk, verd, lambda e, t=t, k=k: {"kind": kind, "tree": sx(export(t)), "optimised": sx(export(opts[k])), "env": sx(envlists[k][e])},
+                 model_equiv.get(k))
         changed = sx(export(t)) != want
         chk.case((kind, sx(export(t))) if changed else None,
                  sample={"kind": kind, "tree": sx(export(t))[:300], "optimised": want[:300]} if changed else None)
